@@ -71,6 +71,6 @@ def valOut : Val → Sexp
   | .unk => sym "unk"
 
 def seriesOut (s : Series) : Sexp :=
-  .list (sym "series" :: Codec.labelsOut s.labels :: s.points.map fun p => .list [sym "p", ofInt p.1, valOut p.2])
+  .list (sym "series" :: Codec.labelsOut (s.labels.filter (fun kv => kv.1 != LogQL.errorDetailsLabel)) :: s.points.map fun p => .list [sym "p", ofInt p.1, valOut p.2])
 
 end MetricCodec
